@@ -16,7 +16,7 @@
 (*   MemoFinalOnly      visited-set consulted only for the last component   *)
 (*   DedupeNeighbour    dedupePaths compares with the previously kept only  *)
 (***************************************************************************)
-EXTENDS FollowRef, SequencesExt, FiniteSets, TLC
+EXTENDS FollowRef, SequencesExt, FiniteSets, TLC, Json, IOUtils
 CONSTANTS Scope,            \* "quick" | "thorough" | "dedupe"
           MemoFinalOnly, DedupeNeighbour, MaxSteps
 
@@ -134,4 +134,28 @@ Judged == FollowClauses(T, reqs, Result, IsNil, TRUE)
 ResultOK == phase = "done" => Judged \subseteq Allowed
 \* non-vacuity witnesses (checked as "must be violated" in a separate config)
 NeverExplained == phase = "done" => Judged = {}
+
+\* ---- case generation for the follow driver (configuration _gen): one file per (tree, request list) with the result of the
+\* ALGORITHM model's run (also where it departs from the property layer: the recorded memoisation finding); the driver calls
+\* the real FollowLinks on the materialised tree and the monitor compares (WalkTrace, clause MODEL.resolverResultDiffers)
+Chr(b) == CASE b = 97 -> "a" [] b = 98 -> "b" [] b = 45 -> "-" [] b = 46 -> "." [] b = 47 -> "/" [] OTHER -> "?"
+RECURSIVE BytesText(_)
+BytesText(bs) == IF bs = <<>> THEN "" ELSE Chr(Head(bs)) \o BytesText(Tail(bs))
+RECURSIVE PathText(_)
+PathText(cs) == IF cs = <<>> THEN "" ELSE IF Len(cs) = 1 THEN BytesText(cs[1]) ELSE BytesText(cs[1]) \o "/" \o PathText(Tail(cs))
+TargetList == SetToSortSeq(Targets, LAMBDA x, y : LessBytes(x, y))
+SlotCode(sl) == CASE sl.t = "absent" -> "0" [] sl.t = "file" -> "f" [] sl.t = "dir" -> "d"
+                  [] OTHER -> ToString(CHOOSE k \in DOMAIN TargetList : TargetList[k] = sl.lnb)
+RECURSIVE ReqCode(_)
+ReqCode(rs) == IF rs = <<>> THEN "" ELSE (IF PathText(rs[1]) = "a" THEN "1" ELSE IF PathText(rs[1]) = "b" THEN "2" ELSE IF PathText(rs[1]) = "a/a" THEN "3"
+                  ELSE IF PathText(rs[1]) = "a/b" THEN "4" ELSE IF PathText(rs[1]) = "b/a" THEN "5" ELSE IF PathText(rs[1]) = "a-b" THEN "6"
+                  ELSE IF PathText(rs[1]) = "a/a/b" THEN "7" ELSE IF PathText(rs[1]) = "b/b" THEN "8" ELSE "9") \o ReqCode(Tail(rs))
+CaseCode == SlotCode(sa) \o SlotCode(sb) \o SlotCode(saa) \o SlotCode(sab) \o SlotCode(sba) \o SlotCode(sdash) \o "_" \o ReqCode(reqs)
+EntryOf(q) == [p |-> PathText(q), t |-> Slot(q).t, ln |-> BytesText(Slot(q).lnb)]
+TreeList == LET D == SetToSortSeq(TreeDom, LAMBDA x, y : LessBytes(Flat(x), Flat(y))) IN [k \in DOMAIN D |-> EntryOf(D[k])]
+GenCases ==
+  (phase = "done") =>
+     ndJsonSerialize(IOEnv.VERIF_GEN_DIR \o "/followcase_" \o CaseCode \o ".ndjson",
+        <<[name |-> CaseCode, tree |-> TreeList, reqs |-> [k \in DOMAIN reqs |-> PathText(reqs[k])],
+           result |-> [k \in DOMAIN Result |-> PathText(Result[k])], isNil |-> IsNil]>>)
 =============================================================================
